@@ -69,7 +69,8 @@ def tpl_reject(size, m, pfx, locked, closed, notcoro, c, dup, _twin=False):
         it = Interp(w, pool, cbkind=0)
         gen_rec = {"pulled": 0}
 
-        def prefix(it_):
+        def prefix(it_, late=False):
+            # pfx 5: the history of pfx 3, flushed only *after* lock() (late=True: the twin, which is never locked)
             # history prefix: an existing group "G" (TaskPool) / start-group-0 with running and waiting tasks
             base = len(w.W)
             if pfx >= 1:
@@ -84,7 +85,7 @@ def tpl_reject(size, m, pfx, locked, closed, notcoro, c, dup, _twin=False):
             if pfx >= 3:
                 it_.cancel(1)
                 w.settle()
-            if pfx >= 4:
+            if pfx == 4 or (pfx == 5 and late):
                 it_.flush(True)
                 w.settle()
 
@@ -129,6 +130,13 @@ def tpl_reject(size, m, pfx, locked, closed, notcoro, c, dup, _twin=False):
                 pool.lock()
                 if not pool.is_locked:
                     code = 907
+                if pfx == 5:
+                    # the lock stays in force across operations that are not unlock(): a flush of remembered tasks
+                    it.flush(True)
+                    w.settle()
+            elif pfx == 5 and not failed_close:
+                it.flush(True)
+                w.settle()
 
             def request():
                 func = plain_function if notcoro else w.callsite(8, w.worker(8))
@@ -204,7 +212,7 @@ def tpl_reject(size, m, pfx, locked, closed, notcoro, c, dup, _twin=False):
                         twin = SimpleTaskPool(w.callsite(7, w.worker(7)), pool_size=size)
                     else:
                         twin = TaskPool(pool_size=size)
-                    prefix(Interp(w, twin, cbkind=0))
+                    prefix(Interp(w, twin, cbkind=0), late=True)
                     n_here, n_twin = accepted_unnamed(pool), accepted_unnamed(twin)
                     if n_here != n_twin:
                         code = 912
@@ -275,12 +283,12 @@ def tpl_size(size, v, k, ctor, half=0, _twin=False):
 
 def families(tier):
     P = ["size", "m", "pfx", "locked", "closed", "notcoro", "c", "dup"]
-    pre = ["size >= 0", "0 <= m <= 4", "0 <= pfx <= 4", "0 <= locked <= 1", "0 <= closed <= 2", "0 <= notcoro <= 1", "0 <= dup <= 1", "closed <= 1 or pfx >= 1"]
+    pre = ["size >= 0", "0 <= m <= 4", "0 <= pfx <= 5", "0 <= locked <= 1", "0 <= closed <= 2", "0 <= notcoro <= 1", "0 <= dup <= 1", "closed <= 1 or pfx >= 1"]
     if tier != "thorough":
         pre += ["c <= 2"]
     return [
         Family(name="reject", fn="tpl_reject", params=P, pre=pre,
-               parts=parts_product(m=range(5), pfx=range(5), closed=(0, 1)) + parts_product(m=range(5), pfx=(1, 2, 3, 4), closed=(2,)),
+               parts=parts_product(m=range(5), pfx=range(6), closed=(0, 1)) + parts_product(m=range(5), pfx=(1, 2, 3, 4, 5), closed=(2,)),
                twin_pre=["m == 1", "pfx == 1", "closed == 0", "locked == 1"], twin_args=[2, 1, 1, 1, 0, 0, 1, 0]),
         Family(name="size", fn="tpl_size", params=["size", "v", "k", "ctor", "half"],
                pre=["size >= 0", "0 <= k <= 3", "0 <= ctor <= 1", "0 <= half <= 2", "half == 0 or (-9 <= v <= 9)", "half != 2 or v == -1"],
